@@ -139,6 +139,7 @@ bool isDecimalNumber(const std::string& s, char dec, char scientificNotation)
 
   std::size_t sepCount = 0;
   std::size_t sciCount = 0;
+  std::size_t digits = 0; // digits of the mantissa
   std::size_t i = 0;
   if (s[0] == '-')
     i = 1;
@@ -150,6 +151,8 @@ bool isDecimalNumber(const std::string& s, char dec, char scientificNotation)
     else if (c == scientificNotation)
     {
       sciCount++;
+      if (digits == 0)
+        return false; // Must be a number before scientific notation.
       if (i == s.size() - 1)
         return false; // Must be sthg after scientific notation.
       c = s[i + 1];
@@ -162,10 +165,12 @@ bool isDecimalNumber(const std::string& s, char dec, char scientificNotation)
     }
     else if (!isDecimalNumber(c))
       return false;
+    else if (sciCount == 0)
+      digits++;
     if (sepCount > 1 || sciCount > 1)
       return false;
   }
-  return true;
+  return digits > 0;
 }
 
 /******************************************************************************/
@@ -176,6 +181,7 @@ bool isDecimalInteger(const std::string& s, char scientificNotation)
     return false;
 
   std::size_t sciCount = 0;
+  std::size_t digits = 0; // digits of the mantissa
   std::size_t i = 0;
   if (s[0] == '-')
     i = 1;
@@ -185,6 +191,8 @@ bool isDecimalInteger(const std::string& s, char scientificNotation)
     if (c == scientificNotation)
     {
       sciCount++;
+      if (digits == 0)
+        return false; // Must be a number before scientific notation.
       if (i == s.size() - 1)
         return false; // Must be sthg after scientific notation.
       c = s[i + 1];
@@ -197,10 +205,12 @@ bool isDecimalInteger(const std::string& s, char scientificNotation)
     }
     else if (!isDecimalNumber(c))
       return false;
+    else if (sciCount == 0)
+      digits++;
     if (sciCount > 1)
       return false;
   }
-  return true;
+  return digits > 0;
 }
 
 /******************************************************************************/
